@@ -33,8 +33,13 @@ def digitsPad (base width : Nat) (digit : Nat → Nat) (n : Nat) : Key :=
 def fmt016x (n : Int) : Key :=
   if n < 0 then 45 :: digitsPad 16 15 hexDigitLower n.natAbs else digitsPad 16 16 hexDigitLower n.toNat
 
-/-- `%020d` of a uint64 -/
-def fmt020d (n : Nat) : Key := digitsPad 10 20 (fun d => 48 + d) n
+/-- `w` decimal digits of `n`, most significant first (exact for `n < 10^w`) -/
+def digitsFixed : Nat → Nat → Key
+  | 0, _ => []
+  | w + 1, n => (48 + n / 10 ^ w % 10) :: digitsFixed w n
+
+/-- `%020d` of a uint64 (`< 2^64 < 10^20`, so twenty digits are exact) -/
+def fmt020d (n : Nat) : Key := digitsFixed 20 n
 
 /-- `%d` of an int64 -/
 def fmtInt (n : Int) : Key :=
@@ -525,16 +530,19 @@ inductive IdxGet
   deriving DecidableEq, Repr
 
 /-- one step of the loop of `doSecondaryGet`; `stays` = fact `secondaryGetChecksIndexName` -/
-def idxGetLoop (stays : Bool) (keys : Array Key) (name key : Key) (c : Cmp) :
+def idxGetLoop (stays endSafe : Bool) (keys : Array Key) (name key : Key) (c : Cmp) :
     Nat → Int → Key → Key → IdxGet
   | 0, _, pk, sk => if pk.isEmpty then .notFound else .found pk sk
   | fuel + 1, i, pk, sk =>
-    if i < 0 ∨ i ≥ keys.size then (if pk.isEmpty then .notFound else .found pk sk)
+    if i < 0 ∨ i ≥ keys.size then
+      -- the iterator ran off the key space: with `endSafe` the function returns "not found",
+      -- without it the named results of the last iteration
+      (if endSafe ∨ pk.isEmpty then .notFound else .found pk sk)
     else
       let itKey := keys[i.toNat]!
       let idxPfx := idxRangePrefix name []
       if stays && !idxPfx.isPrefixOf itKey then
-        if (c = .floor ∨ c = .lower) ∧ cmpSlash itKey idxPfx = .gt then idxGetLoop stays keys name key c fuel (i - 1) [] []
+        if (c = .floor ∨ c = .lower) ∧ cmpSlash itKey idxPfx = .gt then idxGetLoop stays endSafe keys name key c fuel (i - 1) [] []
         else .notFound
       else
       match (match parseIdxKey itKey with
@@ -545,22 +553,24 @@ def idxGetLoop (stays : Bool) (keys : Array Key) (name key : Key) (c : Cmp) :
         let cmp := cmpSlash key sk'
         match c with
         | .equal => if cmp ≠ .eq ∨ pk'.isEmpty then .notFound else .found pk' sk'
-        | .floor => if pk'.isEmpty ∨ cmp = .lt then idxGetLoop stays keys name key c fuel (i - 1) pk' sk'
+        | .floor => if pk'.isEmpty ∨ cmp = .lt then idxGetLoop stays endSafe keys name key c fuel (i - 1) pk' sk'
                     else .found pk' sk'
-        | .lower => if cmp ≠ .gt then idxGetLoop stays keys name key c fuel (i - 1) pk' sk'
+        | .lower => if cmp ≠ .gt then idxGetLoop stays endSafe keys name key c fuel (i - 1) pk' sk'
                     else (if pk'.isEmpty then .notFound else .found pk' sk')
         | .ceiling => if pk'.isEmpty then .notFound else .found pk' sk'
-        | .higher => if cmp ≠ .lt then idxGetLoop stays keys name key c fuel (i + 1) pk' sk'
+        | .higher => if cmp ≠ .lt then idxGetLoop stays endSafe keys name key c fuel (i + 1) pk' sk'
                      else (if pk'.isEmpty then .notFound else .found pk' sk')
 
 /-- `doSecondaryGet` -/
-def indexGetKeys (stays : Bool) (db : Db) (name key : Key) (c : Cmp) : IdxGet :=
+def indexGetKeys (stays endSafe : Bool) (db : Db) (name key : Key) (c : Cmp) : IdxGet :=
   let keys := (SKV.keys db.store).toArray
   let search := idxRangePrefix name key
-  -- SeekLT for LOWER, SeekGE otherwise
+  let below : Int := ((SKV.keys db.store).filter (fun k => SKV.lt k search)).length
+  -- SeekLT for LOWER, SeekGE otherwise (FLOOR falls back to SeekLT when nothing is >= the search key)
   let start : Int :=
-    if c = .lower then ((SKV.keys db.store).filter (fun k => SKV.lt k search)).length - 1
-    else ((SKV.keys db.store).filter (fun k => SKV.lt k search)).length
-  idxGetLoop stays keys name key c (keys.size + 2) start [] []
+    if c = .lower then below - 1
+    else if endSafe ∧ c = .floor ∧ below ≥ keys.size then below - 1
+    else below
+  idxGetLoop stays endSafe keys name key c (keys.size + 2) start [] []
 
 end Oxia.Db
